@@ -40,7 +40,12 @@ type mcase struct {
 	addr         string // ip matchers: address of the connection
 	addrRemote   bool
 	nameOverride string
+	rawJSON      string // the matcher's JSON configuration when provisioning clears it from the struct
+	expect       string // verdict the wire definition and the filters prescribe for the unmutated message ("" = not stated)
+	mutated      bool
 }
+
+var mutCount int
 
 type mgen func(r *vrng, ctx caddy.Context) mcase
 
@@ -56,6 +61,7 @@ func prov(ctx caddy.Context, m any) {
 func mutate(r *vrng, b []byte) []byte {
 	b = append([]byte(nil), b...)
 	for k := r.pick(0, 0, 0, 1, 1, 2); k > 0; k-- {
+		mutCount++
 		switch r.intn(6) {
 		case 0:
 			if len(b) > 0 {
@@ -89,7 +95,13 @@ func genSSH(r *vrng, ctx caddy.Context) mcase {
 	if r.intn(4) == 0 {
 		msg = append([]byte(nil), []byte([]string{"SSH-1.99-x", "SSH_2.0", "ssh-2.0-a", "SS", "SSH-"}[r.intn(5)])...)
 	}
-	return mcase{name: "ssh", m: &l4ssh.MatchSSH{}, msg: mutate(r, msg), model: true}
+	exp := "no"
+	if len(msg) >= 4 && string(msg[:4]) == "SSH-" {
+		exp = "yes"
+	} else if len(msg) < 4 {
+		exp = "more"
+	}
+	return mcase{name: "ssh", m: &l4ssh.MatchSSH{}, msg: mutate(r, msg), model: true, expect: exp}
 }
 
 func genXMPP(r *vrng, ctx caddy.Context) mcase {
@@ -151,11 +163,24 @@ func genSocks5(r *vrng, ctx caddy.Context) mcase {
 	if r.intn(8) == 0 {
 		msg[0] = byte(r.pick(4, 6, 0))
 	}
+	exp := "yes"
+	if msg[0] != 5 {
+		exp = "no"
+	}
+	for _, b := range msg[2:] {
+		ok := false
+		for _, a := range m.AuthMethods {
+			ok = ok || a == uint16(b)
+		}
+		if !ok {
+			exp = "no"
+		}
+	}
 	cfg := fmt.Sprintf("%d", len(methods))
 	for _, x := range methods {
 		cfg += fmt.Sprintf(" %d", x)
 	}
-	return mcase{name: "socks5", cfg: cfg, m: m, msg: mutate(r, msg), model: true}
+	return mcase{name: "socks5", cfg: cfg, m: m, msg: mutate(r, msg), model: true, expect: exp}
 }
 
 func genSocks4(r *vrng, ctx caddy.Context) mcase {
@@ -228,7 +253,32 @@ func genSocks4(r *vrng, ctx caddy.Context) mcase {
 	msg := []byte{4, byte(r.pick(1, 1, 2, 3, 0)), 0, 0, 0, 0, 0, 0, 'u', 0}
 	binary.BigEndian.PutUint16(msg[2:], uint16(r.pick(80, 443, 1080, 65535, 0, 81)))
 	copy(msg[4:8], [][]byte{{10, 1, 2, 3}, {10, 200, 0, 1}, {192, 168, 1, 7}, {192, 168, 1, 8}, {172, 20, 0, 9}, {8, 8, 8, 8}, {0, 0, 0, 1}}[r.intn(7)])
-	return mcase{name: "socks4", cfg: cfg, m: m, msg: mutate(r, msg), model: true}
+	exp := "yes"
+	cmdOK := false
+	for _, c := range codes {
+		cmdOK = cmdOK || int(msg[1]) == c
+	}
+	portOK := len(ports) == 0
+	for _, p := range ports {
+		portOK = portOK || p == binary.BigEndian.Uint16(msg[2:4])
+	}
+	netOK := len(nets) == 0
+	for _, n := range nets {
+		sn := n
+		if !strings.Contains(sn, "/") {
+			if strings.Contains(sn, ":") {
+				sn += "/128"
+			} else {
+				sn += "/32"
+			}
+		}
+		_, ipn, _ := net.ParseCIDR(sn)
+		netOK = netOK || (!strings.Contains(n, ":") && ipn.Contains(net.IP(msg[4:8])))
+	}
+	if msg[0] != 4 || !cmdOK || !portOK || !netOK {
+		exp = "no"
+	}
+	return mcase{name: "socks4", cfg: cfg, m: m, msg: mutate(r, msg), model: true, expect: exp}
 }
 
 func genPostgres(r *vrng, ctx caddy.Context) mcase {
@@ -322,18 +372,18 @@ func oneMatch(c mcase, prefix []byte) (verdict string, reads int, alloc uint64) 
 var os_getenv_debug = false
 
 func prefixLens(r *vrng, n int) []int {
-	if n <= 70 {
+	if n <= 26 {
 		out := make([]int, 0, n+1)
 		for i := 0; i <= n; i++ {
 			out = append(out, i)
 		}
 		return out
 	}
-	set := map[int]bool{0: true, n: true, n - 1: true}
-	for i := 1; i <= 24; i++ {
+	set := map[int]bool{0: true, n: true, n - 1: true, n - 2: true}
+	for i := 1; i <= 9; i++ {
 		set[i] = true
 	}
-	for len(set) < 56 {
+	for len(set) < 26 {
 		set[r.intn(n+1)] = true
 	}
 	var out []int
@@ -359,6 +409,9 @@ func routedVerdict(ctx caddy.Context, c mcase, chunks [][]byte) (string, error) 
 	cfg, err := json.Marshal(c.m)
 	if err != nil {
 		return "", err
+	}
+	if c.rawJSON != "" {
+		cfg = []byte(c.rawJSON)
 	}
 	if string(cfg) == "null" {
 		// a matcher built in Go without sub-matchers marshals its nil raw field as null
@@ -453,20 +506,35 @@ func runMatchStream(t *testing.T, name string, gens []mgen, seedMul uint64, def 
 	stats := map[string]int{}
 	idx := 0
 	for idx < n {
+		mc0 := mutCount
 		c := gens[r.intn(len(gens))](r, ctx)
+		c.mutated = mutCount != mc0
 		lens := prefixLens(r, len(c.msg))
 		whole, _, _ := oneMatch(c, c.msg)
+		if c.expect != "" && !c.mutated {
+			stats["expectations checked"]++
+			if whole != c.expect {
+				out.fail(idx, "spec-mismatch:"+c.name, fmt.Sprintf("%s matcher answers %s on a complete message for which the wire definition and the configured filters prescribe %s (cfg %q, message %s)", c.name, whole, c.expect, c.cfg, vdigest(c.msg)))
+			}
+		}
 		if whole == "yes" && !c.udp && c.cfgFn == nil && len(c.msg) > 1 && len(c.msg) <= layer4.MaxMatchingBytes {
 			// the same message delivered in two or three fragments through the router must still match
-			for t := 0; t < 3; t++ {
+			tries := 3
+			if len(c.msg) <= 160 {
+				tries = len(c.msg) - 1 // every two-way split of a short message
+			}
+			for t := 0; t < tries; t++ {
 				k := 1 + r.intn(len(c.msg)-1)
+				if tries > 3 {
+					k = t + 1
+				}
 				chunks := [][]byte{c.msg[:k], c.msg[k:]}
-				if t == 2 && k > 1 {
+				if tries == 3 && t == 2 && k > 1 {
 					j := 1 + r.intn(k-1)
 					chunks = [][]byte{c.msg[:j], c.msg[j:k], c.msg[k:]}
 				}
 				rv, err := routedVerdict(ctx, c, chunks)
-				stats["routed:"+rv]++
+				stats["routed:"+c.name+":"+rv]++
 				if err != nil {
 					stats["routed-error:"+c.name+":"+err.Error()]++
 				}
